@@ -86,17 +86,17 @@ class MemoryLocation:
     # Gets the address byte in the requested format
     def get_address_bytes(self) -> bytes:
         n = AddressAndLengthFormatIdentifier.address_map[self.alfid.address_format]
-
-        data = struct.pack('>q', self.address)
-        return data[-n:]
+        if self.address < 0 or self.address >= (1 << (8 * n)):
+            raise ValueError('Address 0x%x does not fit in %d bits' % (self.address, 8 * n))
+        return self.address.to_bytes(n, 'big')
 
     # Gets the memory size byte in the requested format
 
     def get_memorysize_bytes(self) -> bytes:
         n = AddressAndLengthFormatIdentifier.memsize_map[self.alfid.memorysize_format]
-
-        data = struct.pack('>q', self.memorysize)
-        return data[-n:]
+        if self.memorysize < 0 or self.memorysize >= (1 << (8 * n)):
+            raise ValueError('Memory size 0x%x does not fit in %d bits' % (self.memorysize, 8 * n))
+        return self.memorysize.to_bytes(n, 'big')
 
     # Generates an instance from the byte stream
     @classmethod
